@@ -6,6 +6,10 @@ Local Open Scope N_scope.
 (* ------------------------------------------------------------------ the generated forwarding *)
 Lemma forwarding_is_try_send : apply_command_forwarding = ForwardTrySend.
 Proof. reflexivity. Qed.
+Lemma close_notice_is_never_lost : session_close_notice = NoticeSendAwait.
+Proof. reflexivity. Qed.
+Lemma bexpand_is_expand o : match o with Park _ | Release => True | _ => bexpand o = map BBase (expand o) end.
+Proof. unfold bexpand. rewrite close_notice_is_never_lost. destruct o; exact I || reflexivity. Qed.
 Lemma loop_bodies_have_no_await : apply_command_awaits = 0%nat /\ handle_awaits = 0%nat.
 Proof. split; reflexivity. Qed.
 
@@ -186,14 +190,14 @@ Proof.
     destruct (Hbase (fun j => j =? k)) as [A B]; [|intros j E; exists (PeerGone k); split; [now left|exact E]|reflexivity|now split].
     intros ev j Hin He. cbn in Hin. destruct Hin as [<-|[<-|[]]]; exact He.
   - (* Park *)
-    cbn [bexpand brun] in H. unfold bstep in H. rewrite Hw in H.
+    unfold bexpand in H. cbn [bexpand_with brun] in H. unfold bstep in H. rewrite Hw in H.
     rewrite (rel_alive_up _ _ _ k Hrel), Hbusy in H. fold (is_in k (parked bs)) in H. unfold mem in H. fold (is_in k (parked bs)) in H.
     destruct (TrackerSpec.up (core bs) && is_in k (served (core bs)) && negb (is_in k (parked bs))); inversion H; subst; clear H.
     + assert (Hb2 : brel m {| base := base c; busy := k :: parked bs; fill := fill c; waiting := false |} {| core := core bs; parked := k :: parked bs |}) by (split; [exact Hrel|split; reflexivity]).
       split; [exact Hb2|]. apply (brel_view m _ _ _ _ Hb2). reflexivity.
     + split; [exact Hb|]. apply (brel_view m _ _ _ _ Hb). reflexivity.
   - (* Release *)
-    cbn [bexpand brun] in H. unfold bstep in H. inversion H; subst; clear H.
+    unfold bexpand in H. cbn [bexpand_with brun] in H. unfold bstep in H. inversion H; subst; clear H.
     assert (Hb2 : brel m {| base := base c; busy := []; fill := []; waiting := false |} {| core := core bs; parked := [] |}) by (split; [exact Hrel|split; reflexivity]).
     split; [exact Hb2|]. apply (brel_view m _ _ _ _ Hb2). rewrite app_nil_r, Hbusy.
     induction (rev (parked bs)) as [|j l IH]; [reflexivity|]. cbn [map flat_map]. rewrite (rel_alive _ _ _ j Hrel).
@@ -214,3 +218,16 @@ Qed.
 
 Lemma brefines m ops t : btrace_gen (binit m) ops = Some t -> t = bstrace m bsinit ops.
 Proof. unfold btrace_gen. rewrite forwarding_is_try_send. apply btrace_refines, brel_init. Qed.
+
+(* ------------------------------------------------------------------ the record of an ended session is removed *)
+Lemma ended_session_record_removed c k c' o : waiting c = false -> running (base c) = true ->
+  (brun_gen c (bexpand (ClientClose k)) = Some (c', o) \/ brun_gen c (bexpand (Garbage k)) = Some (c', o)) ->
+  ~ In k (ids (sessions (trk (base c')))).
+Proof.
+  intros Hw Hr H. assert (H' : brun ForwardTrySend c (map BBase [PeerGone k; SessionEnded k]) = Some (c', o)).
+  { unfold brun_gen, bexpand in H. rewrite forwarding_is_try_send, close_notice_is_never_lost in H. destruct H as [H|H]; exact H. }
+  destruct (brun_base _ _ _ _ Hw H') as ((outs & R) & _). cbn [run] in R. unfold step in R.
+  rewrite Hr in R. cbn [negb with_sessions running] in R. rewrite Hr in R. cbn [negb] in R. injection R as Hb _. unfold ids. rewrite <- Hb.
+  cbn [trk remove sessions with_sessions]. fold (ids (remove_id k (mark_dead k (sessions (trk (base c)))))). rewrite remove_mark_dead. rewrite ids_remove_id. intros Hin. apply filter_In in Hin. destruct Hin as [_ Hn].
+  rewrite N.eqb_refl in Hn. discriminate.
+Qed.
